@@ -75,8 +75,13 @@ func vC15Value(which int) (interface{}, map[string]string) {
 		return v, nm
 	case 6:
 		return []interface{}{nil, int32(1), "s"}, map[string]string{}
-	default:
+	case 7:
 		v := &ZOuter{A: 1, In: ZInner{N: 2, S: "i"}, Z: 3}
+		_, nm := vExtract(v)
+		return v, nm
+	default:
+		// 18 distinct classes: the last ones are written in the long 'O' form
+		v := zManyClasses(18, 5, 17)
 		_, nm := vExtract(v)
 		return v, nm
 	}
@@ -85,7 +90,7 @@ func vC15Value(which int) (interface{}, map[string]string) {
 // H_C15_fault: for every value, every index k of the k-th Write made while encoding it, and every fault
 // kind: if the fault fired, the encode call reports an error.
 func H_C15_fault() {
-	which := vChoice("value", 8)
+	which := vChoice("value", 9)
 	v, nm := vC15Value(which)
 	// fault-free run: count the Write calls
 	w0 := &vFaultWriter{failAt: -1}
